@@ -327,6 +327,12 @@ func cmdCheck(args []string) int {
 					violations++
 					continue
 				}
+				satLabels = map[string]bool{}
+				for _, q2 := range r.Queries {
+					if q2.Status == "sat" && q2.Kind == "assert" {
+						satLabels[q2.Label] = true
+					}
+				}
 				rr := nativeReplay(jobByName[r.Job], r.Params, q, dir)
 				replayed++
 				if rr.Reproduced {
